@@ -51,6 +51,18 @@ func genC07(t *rapid.T) C07Case {
 		g.Prog.Main = append(g.Prog.Main, ragen.Line{K: ragen.KInclude, File: "refs"})
 		lab["reference-in-included-text"] = true
 	}
+	// an included file that defines a name of the including file differently: each file keeps its own meaning
+	if len(defNames) > 0 && rapid.IntRange(0, 2).Draw(t, "collide") == 0 {
+		d := rapid.SampledFrom(defNames).Draw(t, "collided")
+		g.Prog.Files["include/owndefs.ra"] = []ragen.Line{{K: ragen.KDefine, Name: d, T: "own[0-9]"}, {K: ragen.KDefine, Name: "onlyhere", T: "y+"}, {K: ragen.KEntry, T: "inc2{{" + d + "}}{{onlyhere}}"}}
+		pos := rapid.IntRange(0, len(g.Prog.Main)).Draw(t, "collidepos")
+		if pos != 0 {
+			pos = len(g.Prog.Main)
+		}
+		g.Prog.Main = append(g.Prog.Main[:pos], append([]ragen.Line{{K: ragen.KInclude, File: "owndefs"}}, g.Prog.Main[pos:]...)...)
+		g.Prog.Main = append(g.Prog.Main, ragen.Line{K: ragen.KEntry, T: "main{{onlyhere}}"})
+		lab["include-redefines-name"] = true
+	}
 	// permutation: take the define lines out and put each back at a drawn position (top level or inside blocks)
 	var rest, defs []ragen.Line
 	for _, l := range g.Prog.Main {
